@@ -113,7 +113,7 @@ import l2
 from gen import Gen
 
 POSITIONS = ["field", "vec", "option", "hashmap-value", "array", "slice", "generic-arg", "nested-generic", "box",
-             "tuple-variant", "struct-variant-field", "alias-target", "alias-vec"]
+             "tuple-variant", "struct-variant-field", "alias-target", "alias-vec", "unknown-generic", "same-head-nested"]
 # positions `get_dependencies` does not look into (open known finding `uncovered-reference-positions`)
 ORDER_LANGS = ["typescript", "python", "kotlin", "swift", "go"]
 
@@ -136,6 +136,10 @@ def ref_type(pos, target):
         return t_path("Wrap", [t])
     if pos == "nested-generic":
         return t_path("Wrap", [t_path("Vec", [t])])
+    if pos == "unknown-generic":
+        return t_path("Ext", [t])                       # `Ext` is not a typeshared item of the file
+    if pos == "same-head-nested":
+        return t_path("Wrap", [t_path("Wrap", [t])])
     if pos == "box":
         return t_path("Box", [t])
     raise ValueError(pos)
